@@ -29,6 +29,8 @@ impl BlockParser {
     // Generate tokens for input range
     //
     pub fn tokenize(&self, state: &mut BlockState) {
+        #[cfg(mdit_verif)]
+        let _verif_frame = crate::verif_hooks::Frame::enter(state.level);
         let mut has_empty_lines = false;
 
         while state.line < state.line_max {
@@ -55,8 +57,33 @@ impl BlockParser {
             let mut ok = false;
             let prev_line = state.line;
 
+            #[cfg(mdit_verif)]
+            let mut verif_rule_idx = 0usize;
             for rule in self.ruler.iter() {
+                #[cfg(mdit_verif)]
+                let verif_probe = if crate::verif_hooks::probe_enabled() {
+                    let size = crate::verif_hooks::tree_size(&state.node);
+                    let saved = (state.line, state.blk_indent, state.line_max, state.tight, state.list_indent, state.level,
+                                 format!("{:?}", state.line_offsets));
+                    let verdict = rule(state, true);
+                    let line_after = state.line;
+                    state.line = saved.0;
+                    let kept = (state.blk_indent, state.line_max, state.tight, state.list_indent, state.level)
+                        == (saved.1, saved.2, saved.3, saved.4, saved.5) && format!("{:?}", state.line_offsets) == saved.6;
+                    Some((if verdict { Some(line_after) } else { None }, crate::verif_hooks::tree_size(&state.node) == size, kept))
+                } else { None };
                 ok = rule(state, false);
+                #[cfg(mdit_verif)]
+                {
+                    if let Some((silent, kept_tree, kept_pos)) = verif_probe {
+                        crate::verif_hooks::record(crate::verif_hooks::ProbeRecord {
+                            inline: false, rule_idx: verif_rule_idx, at: prev_line, silent,
+                            real: if ok { Some(state.line) } else { None },
+                            silent_kept_tree: kept_tree, silent_kept_pos: kept_pos,
+                        });
+                    }
+                    verif_rule_idx += 1;
+                }
                 if ok {
                     assert!(state.line > prev_line, "block rule didn't increment state.line");
                     break;
